@@ -264,7 +264,11 @@ func makeUmemo(twoU, n1 int, t []int) []map[ukey]float64 {
 	for A_2i := range A[2] {
 		Asum := 0.0
 		r2Low := maxint(0, A_2i.n1-t[0])
-		r2High := (A_2i.twoU - A_2i.n1*(t[0]-A_2i.n1)) / N_2
+		r2Num := A_2i.twoU - A_2i.n1*(t[0]-A_2i.n1)
+		r2High := r2Num / N_2
+		if r2Num < 0 {
+			r2High = -1
+		}
 		for r2 := r2Low; r2 <= r2High; r2++ {
 			Asum += mathx.Choose(t[0], A_2i.n1-r2) *
 				mathx.Choose(t[1], r2)
